@@ -11,6 +11,9 @@ import EG.Model.CheckedTriangle
 import EG.Model.ThickTriangle
 import EG.Model.CheckedRRect
 import EG.Model.CheckedSector
+import EG.Model.CheckedStyledScanline
+import EG.Model.CheckedSegment
+import EG.Model.ThickPolyline
 namespace EG.Driver
 open EG
 
@@ -233,6 +236,245 @@ private def takeChk {σ α : Type} (next : σ → Option (Option (α × σ))) : 
     | none => pure acc.reverse
     | some (a, st') => takeChk next n st' (a :: acc)
 
+/-! ### scanline-based styled shapes: `pixels().take(n)` and the first `n` calls of `draw` -/
+
+/-- `StyledPixelsIterator::next` of circle / ellipse / rounded rectangle (the three are textually
+identical) over a checked source of styled scanlines; `fuel` bounds the turns of the loops. -/
+private def pixTake {σ : Type} (next : σ → Option (Option StyledScanline × σ)) (sc fc : Option Color) :
+    Nat → Nat → σ → Scanline → Scanline → Scanline → List (Pt × Color) → Option (List (Pt × Color))
+  | 0, _, _, _, _, _, acc => some acc.reverse
+  | _, 0, _, _, _, _, acc => some acc.reverse
+  | fuel + 1, n + 1, st, sl, f, sr, acc =>
+    match sc, fc with
+    | none, none => some acc.reverse
+    | some s, none =>
+      match sl.next with
+      | some (p, sl') => pixTake next sc fc fuel n st sl' f sr ((p, s) :: acc)
+      | none =>
+        match sr.next with
+        | some (p, sr') => pixTake next sc fc fuel n st sl f sr' ((p, s) :: acc)
+        | none => do
+          let r ← next st
+          match r.1 with
+          | none => pure acc.reverse
+          | some l => pixTake next sc fc fuel (n + 1) r.2 l.strokeLeft f l.strokeRight acc
+    | some s, some c =>
+      match sl.next with
+      | some (p, sl') => pixTake next sc fc fuel n st sl' f sr ((p, s) :: acc)
+      | none =>
+        match f.next with
+        | some (p, f') => pixTake next sc fc fuel n st sl f' sr ((p, c) :: acc)
+        | none =>
+          match sr.next with
+          | some (p, sr') => pixTake next sc fc fuel n st sl f sr' ((p, s) :: acc)
+          | none => do
+            let r ← next st
+            match r.1 with
+            | none => pure acc.reverse
+            | some l => pixTake next sc fc fuel (n + 1) r.2 l.strokeLeft l.fill l.strokeRight acc
+    | none, some c =>
+      match f.next with
+      | some (p, f') => pixTake next sc fc fuel n st sl f' sr ((p, c) :: acc)
+      | none => do
+        let r ← next st
+        match r.1 with
+        | none => pure acc.reverse
+        | some l => pixTake next sc fc fuel (n + 1) r.2 sl l.fill sr acc
+
+/-- One `Scanline::draw` on a target that fails from call `n + 1` on: `none` inside = the target
+returned an error (the draw ends), else the calls so far. -/
+private def drawPart (n : Nat) (acc : List (Rect × Color)) (s : Scanline) (c : Color) :
+    Option (Option (List (Rect × Color))) := do
+  match ← Chk.Scanline.drawRect s with
+  | none => pure (some acc)
+  | some r => if acc.length ≥ n then pure none else pure (some ((r, c) :: acc))
+
+/-- The `for scanline in StyledScanlines { draw_stroke / draw_stroke_and_fill }` loop. -/
+private def drawStyledTake {σ : Type} (next : σ → Option (Option StyledScanline × σ)) (sc : Color)
+    (fc : Option Color) (n : Nat) : Nat → σ → List (Rect × Color) → Option (List (Rect × Color))
+  | 0, _, acc => some acc.reverse
+  | fuel + 1, st, acc => do
+    let r ← next st
+    match r.1 with
+    | none => pure acc.reverse
+    | some l =>
+      match ← drawPart n acc l.strokeLeft sc with
+      | none => pure acc.reverse
+      | some acc =>
+        let mid ← match fc with
+          | some c => drawPart n acc l.fill c
+          | none => pure (some acc)
+        match mid with
+        | none => pure acc.reverse
+        | some acc =>
+          match ← drawPart n acc l.strokeRight sc with
+          | none => pure acc.reverse
+          | some acc => drawStyledTake next sc fc n fuel r.2 acc
+
+/-- The `for scanline in Scanlines { scanline.draw }` loop of the fill-only arm. -/
+private def drawFillTake {σ : Type} (next : σ → Option (Option Scanline × σ)) (c : Color) (n : Nat) :
+    Nat → σ → List (Rect × Color) → Option (List (Rect × Color))
+  | 0, _, acc => some acc.reverse
+  | fuel + 1, st, acc => do
+    let r ← next st
+    match r.1 with
+    | none => pure acc.reverse
+    | some l =>
+      match ← drawPart n acc l c with
+      | none => pure acc.reverse
+      | some acc => drawFillTake next c n fuel r.2 acc
+
+private def fmtCalls (l : List (Rect × Color)) : String :=
+  joinOr ";" (l.map (fun (r, c) => s!"{r.tl.x},{r.tl.y},{r.size.w},{r.size.h},{c}"))
+
+private def readPrimStyle (t : Toks) : PrimStyle × Toks :=
+  let (st, t) := readStyle t
+  (⟨st.fill, st.stroke, st.width, st.align⟩, t)
+
+private def rowsOf (a b : Int) : Nat := (b - a).toNat + 2
+
+/-- `circle.into_styled(style).pixels().take(n)`. -/
+private def circlePixels (c : Circle) (st : PrimStyle) (n : Nat) : Option (List (Pt × Color)) := do
+  let sa ← Chk.Circle.offset c st.strokeOffset
+  let fo ← Chk.chkI32 (-(satAsI32 st.insideStrokeWidth))
+  let fa ← Chk.Circle.offset c fo
+  let it ← Chk.Circle.styledScanlines sa fa
+  pixTake Chk.Circle.styledNext st.strokeColor st.fillColor (n + rowsOf it.scanlines.y it.scanlines.yEnd) n it
+    (Scanline.newEmpty 0) (Scanline.newEmpty 0) (Scanline.newEmpty 0) []
+
+/-- the first `n` `fill_solid` calls of `circle.into_styled(style).draw(target)`. -/
+private def circleDraw (c : Circle) (st : PrimStyle) (n : Nat) : Option (List (Rect × Color)) :=
+  match st.effectiveStrokeColor, st.fillColor with
+  | some sc, fc => do
+    let sa ← Chk.Circle.offset c st.strokeOffset
+    let fo ← Chk.chkI32 (-(satAsI32 st.insideStrokeWidth))
+    let fa ← Chk.Circle.offset c fo
+    let it ← Chk.Circle.styledScanlines sa fa
+    drawStyledTake Chk.Circle.styledNext sc fc n (rowsOf it.scanlines.y it.scanlines.yEnd) it []
+  | none, some fc => do
+    let fo ← Chk.chkI32 (-(satAsI32 st.insideStrokeWidth))
+    let fa ← Chk.Circle.offset c fo
+    let it ← Chk.Circle.scanlines fa
+    drawFillTake Chk.Circle.next fc n (rowsOf it.y it.yEnd) it []
+  | none, none => pure []
+
+private def ellipsePixels (e : Ellipse) (st : PrimStyle) (n : Nat) : Option (List (Pt × Color)) := do
+  let sa ← Chk.Ellipse.offset e st.strokeOffset
+  let fo ← Chk.chkI32 (-(satAsI32 st.insideStrokeWidth))
+  let fa ← Chk.Ellipse.offset e fo
+  let it ← Chk.Ellipse.styledScanlines sa fa
+  pixTake Chk.Ellipse.styledNext st.strokeColor st.fillColor (n + rowsOf it.scanlines.y it.scanlines.yEnd) n it
+    (Scanline.newEmpty 0) (Scanline.newEmpty 0) (Scanline.newEmpty 0) []
+
+private def ellipseDraw (e : Ellipse) (st : PrimStyle) (n : Nat) : Option (List (Rect × Color)) :=
+  match st.effectiveStrokeColor, st.fillColor with
+  | some sc, fc => do
+    let sa ← Chk.Ellipse.offset e st.strokeOffset
+    let fo ← Chk.chkI32 (-(satAsI32 st.insideStrokeWidth))
+    let fa ← Chk.Ellipse.offset e fo
+    let it ← Chk.Ellipse.styledScanlines sa fa
+    drawStyledTake Chk.Ellipse.styledNext sc fc n (rowsOf it.scanlines.y it.scanlines.yEnd) it []
+  | none, some fc => do
+    let fo ← Chk.chkI32 (-(satAsI32 st.insideStrokeWidth))
+    let fa ← Chk.Ellipse.offset e fo
+    let it ← Chk.Ellipse.scanlines fa
+    drawFillTake Chk.Ellipse.next fc n (rowsOf it.y it.yEnd) it []
+  | none, none => pure []
+
+/-- `rounded_rectangle::styled::StyledScanlines::next`. -/
+private def rrStyledNext (st : RRContains × RRContains) :
+    Option (Option StyledScanline × (RRContains × RRContains)) := do
+  match ← Chk.RRContains.next st.1 with
+  | none => pure (none, st)
+  | some (s, c') =>
+    let fr ← Chk.RRContains.fillRange st.2 s
+    pure (some (StyledScanline.new s.y s.xs s.xe fr), (c', st.2))
+
+private def rrPlainNext (c : RRContains) : Option (Option Scanline × RRContains) := do
+  match ← Chk.RRContains.next c with
+  | none => pure (none, c)
+  | some (s, c') => pure (some s, c')
+
+private def rrAreas (r : RoundedRect) (st : Style) : Option (RRContains × RRContains) := do
+  let sa ← Chk.RoundedRect.offset r st.strokeOffset
+  let fo ← Chk.chkI32 (-(satAsI32 st.insideStrokeWidth))
+  let fa ← Chk.RoundedRect.offset r fo
+  let s ← Chk.RRContains.new sa
+  let f ← Chk.RRContains.new fa
+  pure (s, f)
+
+private def rrStyledPixels (r : RoundedRect) (st : Style) (n : Nat) : Option (List (Pt × Color)) := do
+  let a ← rrAreas r st
+  pixTake rrStyledNext st.stroke st.fill (n + rowsOf a.1.rowsStart a.1.rowsEnd) n a
+    (Scanline.newEmpty 0) (Scanline.newEmpty 0) (Scanline.newEmpty 0) []
+
+private def rrDraw (r : RoundedRect) (st : Style) (n : Nat) : Option (List (Rect × Color)) :=
+  match st.effectiveStrokeColor, st.fill with
+  | some sc, fc => do
+    let a ← rrAreas r st
+    drawStyledTake rrStyledNext sc fc n (rowsOf a.1.rowsStart a.1.rowsEnd) a []
+  | none, some fc => do
+    let fo ← Chk.chkI32 (-(satAsI32 st.insideStrokeWidth))
+    let fa ← Chk.RoundedRect.offset r fo
+    let c ← Chk.RRContains.new fa
+    drawFillTake rrPlainNext fc n (rowsOf c.rowsStart c.rowsEnd) c []
+  | none, none => pure []
+
+/-! ### a thick polyline of three vertices: the first `n` calls of `draw` -/
+
+/-- `LineJoin::start` / `LineJoin::end` (extents only). -/
+private def capJoinR (a b : Pt) (w : Nat) (atStart : Bool) : R Joins.LineJoin := do
+  let (l, r) ← extentsR ⟨a, b⟩ w
+  pure (if atStart then ⟨.start, ⟨l.start, r.start⟩, ⟨l.start, r.start⟩⟩
+        else ⟨.stop, ⟨l.stop, r.stop⟩, ⟨l.stop, r.stop⟩⟩)
+
+/-- One row of `polyline::ScanlineIntersections` for two segments, as `ScanlineIterator::next`
+and `draw_thick` consume it: the non-empty scanlines of the row, in order. -/
+private def polyRow (s1 s2 : Joins.ThickSegment) (y : Int) : R (List Scanline) := do
+  let sc1 ← chk (Chk.Joins.ThickSegment.intersection s1 y)
+  let sc2 ← chk (Chk.Joins.ThickSegment.intersection s2 y)
+  -- segment 1 against the empty accumulator: never extends (an empty scanline touches nothing)
+  let e0 ← chk (Chk.Scanline.tryExtend (Scanline.newEmpty y) sc1)
+  let (first, acc) := if e0.1 then (none, e0.2) else (some (Scanline.newEmpty y), sc1)
+  let e1 ← chk (Chk.Scanline.tryExtend acc sc2)
+  let out := if e1.1 then [first, some e1.2] else [first, some acc, some sc2]
+  pure (out.filterMap (fun o => match o with
+    | some s => if s.isEmpty then none else some s
+    | none => none))
+
+private def polyDrawRows (s1 s2 : Joins.ThickSegment) (c : Color) (n : Nat) :
+    Nat → Int → Int → List (Rect × Color) → R (List (Rect × Color))
+  | 0, _, _, acc => pure acc.reverse
+  | fuel + 1, y, yEnd, acc =>
+    if y < yEnd then do
+      let ls ← polyRow s1 s2 y
+      -- `to_rectangle`, `is_zero_sized`, `fill_solid` per scanline; the target fails from call n + 1 on
+      -- state: the calls so far and whether the target has returned its error
+      let step : List (Rect × Color) × Bool → Scanline → R (List (Rect × Color) × Bool) := fun st l =>
+        if st.2 then pure st
+        else do
+          let r ← chk (Chk.Scanline.toRectangle l)
+          if r.isZeroSized then pure st
+          else if st.1.length ≥ n then pure (st.1, true)
+          else pure ((r, c) :: st.1, false)
+      let mut st : List (Rect × Color) × Bool := (acc, false)
+      for l in ls do
+        st ← step st l
+      if st.2 then pure st.1.reverse
+      else polyDrawRows s1 s2 c n fuel (y + 1) yEnd st.1
+    else pure acc.reverse
+
+/-- `Polyline::new(&[p0, p1, p2]).into_styled(PrimitiveStyle::with_stroke(c, w)).draw(target)`,
+`w >= 2`: `untranslated_bounding_box` (all joins, the fold), then row by row. -/
+private def polyDraw (p0 p1 p2 : Pt) (w : Nat) (c : Color) (n : Nat) : R (List (Rect × Color)) := do
+  let j0 ← capJoinR p0 p1 w true
+  let j1 ← joinR p0 p1 p2 w
+  let j2 ← capJoinR p1 p2 w false
+  let s1 : Joins.ThickSegment := ⟨j0, j1⟩
+  let s2 : Joins.ThickSegment := ⟨j1, j2⟩
+  let bb ← chk (Chk.Joins.foldEdgeBoxes [s1, s2])
+  polyDrawRows s1 s2 c n ((bb.rowsEnd - bb.tl.y).toNat + 1) bb.tl.y bb.rowsEnd []
+
 private def readTri (t : Toks) : Triangle × Toks :=
   let (a, t) := t.pt; let (b, t) := t.pt; let (c, t) := t.pt
   (⟨a, b, c⟩, t)
@@ -290,6 +532,28 @@ def handleChk2 (kernel : String) (t : Toks) : Option String :=
     let (st, t) := readStyle t; let (n, _) := t.nat
     some (orPanic2 (fun l => s!"ps={fmtPs ps} px={fmtPix l}")
       (do let it ← Chk.Arc.styledPixelsIt st ⟨tl, d, ps⟩; takeChk Chk.Arc.styledNext n it []))
+  | "circle.styled" =>
+    let (tl, t) := t.pt; let (d, t) := t.nat; let (st, t) := readPrimStyle t; let (n, _) := t.nat
+    some (orPanic2 fmtPix (circlePixels ⟨tl, d⟩ st n))
+  | "circle.draw" =>
+    let (tl, t) := t.pt; let (d, t) := t.nat; let (st, t) := readPrimStyle t; let (n, _) := t.nat
+    some (orPanic2 fmtCalls (circleDraw ⟨tl, d⟩ st n))
+  | "ellipse.styled" =>
+    let (tl, t) := t.pt; let (sz, t) := t.sz; let (st, t) := readPrimStyle t; let (n, _) := t.nat
+    some (orPanic2 fmtPix (ellipsePixels ⟨tl, sz⟩ st n))
+  | "ellipse.draw" =>
+    let (tl, t) := t.pt; let (sz, t) := t.sz; let (st, t) := readPrimStyle t; let (n, _) := t.nat
+    some (orPanic2 fmtCalls (ellipseDraw ⟨tl, sz⟩ st n))
+  | "rrect.styled" =>
+    let (rr, t) := readRR t; let (st, t) := readStyle t; let (n, _) := t.nat
+    some (orPanic2 fmtPix (rrStyledPixels rr st n))
+  | "rrect.draw" =>
+    let (rr, t) := readRR t; let (st, t) := readStyle t; let (n, _) := t.nat
+    some (orPanic2 fmtCalls (rrDraw rr st n))
+  | "poly.draw" =>
+    let (p0, t) := t.pt; let (p1, t) := t.pt; let (p2, t) := t.pt
+    let (w, t) := t.nat; let (n, _) := t.nat
+    (polyDraw p0 p1 p2 w 9 n).out fmtCalls
   | _ => none
 
 end EG.Driver
